@@ -143,3 +143,11 @@ Theorem C12_refuted_shallower_input_older_than_deeper :
   lost_log (eng s) = false /\ cget s kx = Some [2] /\ cget (creopen s true) kx = Some [1].
 Proof. exact refuted_shallower_older. Qed.
 Print Assumptions C12_refuted_shallower_input_older_than_deeper.
+
+(* ties C12_merge_partial's abstract [read] to the model: with prec = the reverse file-name order
+   it is exactly what a database opened on the directory alone reads, in every reachable state *)
+Theorem C12_disk_read_is_read_in_name_order : forall c k ops key,
+  let s := crun c k ops in
+  disk_read s key = read (map s_entries (rev (sst_sort (map d_sst (disk s))))) key.
+Proof. exact disk_read_as_read. Qed.
+Print Assumptions C12_disk_read_is_read_in_name_order.
